@@ -226,6 +226,8 @@ class Model:
             new = parse_unit(val) if isinstance(val, str) else val
             if isinstance(new, Unit) and obj.unit is not None and isinstance(obj.term, Rat | Vec):
                 obj.term = obj.term / obj.unit.scale() * new.scale()
+            elif isinstance(new, Unit) and obj.unit is not None and isinstance(obj.term, Mat):
+                obj.term = obj.term.__rmul__(new.scale() / obj.unit.scale())  # the same numbers under another unit
             else:
                 obj.term = None
             obj.unit = new if isinstance(new, Unit) else None
